@@ -163,7 +163,8 @@ def expr(rng, depth=2, boolean=False, subq=True):
 def target(rng, depth):
     r = rng.random()
     if r < 0.12:
-        return '*'
+        # (the mindsdb grammar also reads an alias after a star)
+        return '*' if rng.random() < 0.85 else rng.choice(['* x', '* AS x', '* zz'])
     if r < 0.18:
         return f'{ident(rng)}.*'
     e = expr(rng, depth)
@@ -438,6 +439,10 @@ def _set(rng):
         lambda: f'SET {rng.choice(["GLOBAL", "SESSION", "PERSIST_ONLY"])} @{rng.choice(PLAIN_IDS[:3])} = {const(rng)}',
         lambda: f'SET {ident(rng, 0)} {rng.choice(STRINGS[:4] + INTS[:3])}',
         lambda: f'SET TRANSACTION ISOLATION LEVEL READ COMMITTED',
+        # several assignments in one SET, scopes repeated / changing / absent from item to item
+        lambda: 'SET ' + ', '.join(f'{rng.choice(["GLOBAL ", "SESSION ", "", "GLOBAL ", "PERSIST "])}{rng.choice(PLAIN_IDS)} = {const(rng)}' for _ in range(rng.randint(2, 4))),
+        lambda: 'SET ' + ', '.join(rng.choice([f'@{rng.choice(PLAIN_IDS)} = {const(rng)}', f'@@{rng.choice(["session", "global"])}.{rng.choice(PLAIN_IDS)} = {const(rng)}',
+                                               f'GLOBAL {rng.choice(PLAIN_IDS)} = {const(rng)}']) for _ in range(rng.randint(2, 3))),
         lambda: f"SET NAMES utf8 COLLATE {rng.choice(['utf8_general_ci', chr(39) + 'utf8_bin' + chr(39)])}",
         lambda: f'SET {rng.choice(["CHARSET", "CHARACTER SET"])} {rng.choice(["utf8", chr(39) + "utf8" + chr(39), "DEFAULT"])}',
         lambda: f'SET autocommit, sql_mode = {const(rng)}' if False else f'SET autocommit = 1, sql_mode = {const(rng)}',
@@ -597,7 +602,7 @@ NUMBER_EDGES = ['1.5e', '1e5', '1E-3', '.5', '5.', '0x1F', '1_000', '00', '007',
 
 # one spelling for every alternative a lexer offers for its value tokens (variables in all quotings, numbers, the three string
 # quotings with a doubled quote inside, parameters, comments of every style, prefixed literals of other SQL flavours)
-LEXEME_FORMS = ['@v', "@'v'", '@"v"', '@`v`', '@@v', "@@'v'", '@@"g.v"', '@@`v`', '@a.b', '@$x', '@@session.v', "@'a b'", '@"a.b"', "@''", '@',
+LEXEME_FORMS = ['@@global.a.b', '@a.b.c', '@@a.b.c.d', '@@`a.b`.c', "@@'g.h'", '@@.', '@.', '@@a.', '@v', "@'v'", '@"v"', '@`v`', '@@v', "@@'v'", '@@"g.v"', '@@`v`', '@a.b', '@$x', '@@session.v', "@'a b'", '@"a.b"', "@''", '@',
                 '0x1F', '1e5', '.5', '5.', '1.e3', "'a''b'", '"a""b"', '`a``b`', '$1', ':name', '?', '#c\n', '--c\n', '/*c*/', '\\N', "N'x'", "X'00'",
                 "b'01'", "_utf8'x'", '$$x$$', "@'x\ny'", '@"a\nb"', '@`a\nb`', "@@'x\ny'", "'a\nb'", '"a\nb"', '`a\nb`', "@'x\r\ny'", "'\n'", '@"\n"', "E'x'", '[a]', '{a}', '%s', '%(n)s', '::', ':=', '->', '->>', '<=>', '!', '\\', '..', "''", '""', '``']
 
